@@ -1,9 +1,11 @@
 package main
 
 import (
-	"fmt"
+	"hash/maphash"
+	"math"
 	"reflect"
 	"sort"
+	"strconv"
 	"strings"
 )
 
@@ -12,22 +14,58 @@ import (
 // pointers once (identity = first-visit ordinal, so aliasing between roots is
 // part of the fingerprint), slices up to their capacity, maps sorted by key.
 // Funcs and unsafe pointers contribute identity only.
+type fpSink interface {
+	WriteString(string) (int, error)
+	WriteByte(byte) error
+	Write([]byte) (int, error)
+}
+
 type fpState struct {
 	ptrs map[uintptr]int
-	b    strings.Builder
+	b    fpSink
+	sb   *strings.Builder // set when b is a string builder
+	num  [32]byte
 	// slack: when false, slice elements between len and cap are omitted
 	slack bool
 }
 
+func newFpString(slack bool) *fpState {
+	sb := &strings.Builder{}
+	return &fpState{ptrs: map[uintptr]int{}, slack: slack, b: sb, sb: sb}
+}
+
 func fingerprint(slack bool, roots ...interface{}) string {
-	st := &fpState{ptrs: map[uintptr]int{}, slack: slack}
+	st := newFpString(slack)
 	for i, r := range roots {
-		fmt.Fprintf(&st.b, "#%d:", i)
+		st.b.WriteByte('#')
+		st.int(int64(i))
+		st.b.WriteByte(':')
 		st.walk(reflect.ValueOf(r), 0)
 		st.b.WriteByte('\n')
 	}
-	return st.b.String()
+	return st.sb.String()
 }
+
+// fingerprintHash is fingerprint streamed into a hash (same walk, no string is built): for
+// large roots that are only ever compared for equality within one process.
+func fingerprintHash(slack bool, roots ...interface{}) uint64 {
+	h := &maphash.Hash{}
+	h.SetSeed(fpSeed)
+	st := &fpState{ptrs: map[uintptr]int{}, slack: slack, b: h}
+	for i, r := range roots {
+		st.b.WriteByte('#')
+		st.int(int64(i))
+		st.b.WriteByte(':')
+		st.walk(reflect.ValueOf(r), 0)
+		st.b.WriteByte('\n')
+	}
+	return h.Sum64()
+}
+
+var fpSeed = maphash.MakeSeed()
+
+func (st *fpState) int(i int64)   { st.b.Write(strconv.AppendInt(st.num[:0], i, 10)) }
+func (st *fpState) uint(u uint64) { st.b.Write(strconv.AppendUint(st.num[:0], u, 10)) }
 
 func (st *fpState) ptr(p uintptr) (int, bool) {
 	if id, ok := st.ptrs[p]; ok {
@@ -49,22 +87,32 @@ func (st *fpState) walk(v reflect.Value, depth int) {
 	}
 	switch v.Kind() {
 	case reflect.Bool:
-		fmt.Fprintf(&st.b, "%v", v.Bool())
+		if v.Bool() {
+			st.b.WriteByte('T')
+		} else {
+			st.b.WriteByte('F')
+		}
 	case reflect.Int, reflect.Int8, reflect.Int16, reflect.Int32, reflect.Int64:
-		fmt.Fprintf(&st.b, "%d", v.Int())
+		st.int(v.Int())
 	case reflect.Uint, reflect.Uint8, reflect.Uint16, reflect.Uint32, reflect.Uint64, reflect.Uintptr:
-		fmt.Fprintf(&st.b, "%d", v.Uint())
+		st.uint(v.Uint())
 	case reflect.Float32, reflect.Float64:
-		fmt.Fprintf(&st.b, "%b", v.Float())
+		st.b.WriteByte('f')
+		st.uint(math.Float64bits(v.Float()))
 	case reflect.String:
-		fmt.Fprintf(&st.b, "%q", v.String())
+		st.b.WriteByte('"')
+		st.int(int64(v.Len()))
+		st.b.WriteByte(':')
+		st.b.WriteString(v.String())
+		st.b.WriteByte('"')
 	case reflect.Ptr:
 		if v.IsNil() {
 			st.b.WriteString("nil")
 			return
 		}
 		id, seen := st.ptr(v.Pointer())
-		fmt.Fprintf(&st.b, "&%d", id)
+		st.b.WriteByte('&')
+		st.int(int64(id))
 		if tn := v.Type().String(); strings.HasPrefix(tn, "*reflect.") || strings.HasPrefix(tn, "*abi.") {
 			return // Go runtime type descriptors: identity only
 		}
@@ -107,7 +155,12 @@ func (st *fpState) walk(v reflect.Value, depth int) {
 		if c > 0 {
 			id, seen = st.ptr(v.Pointer())
 		}
-		fmt.Fprintf(&st.b, "[%d/%d@%d", n, c, id)
+		st.b.WriteByte('[')
+		st.int(int64(n))
+		st.b.WriteByte('/')
+		st.int(int64(c))
+		st.b.WriteByte('@')
+		st.int(int64(id))
 		if !seen || true {
 			full := v
 			lim := n
@@ -136,7 +189,8 @@ func (st *fpState) walk(v reflect.Value, depth int) {
 			return
 		}
 		id, seen := st.ptr(v.Pointer())
-		fmt.Fprintf(&st.b, "map@%d", id)
+		st.b.WriteString("map@")
+		st.int(int64(id))
 		if seen {
 			return
 		}
@@ -146,18 +200,18 @@ func (st *fpState) walk(v reflect.Value, depth int) {
 		for it.Next() {
 			// keys are fingerprinted with a private pointer table so that the
 			// sort order does not depend on visit order
-			ks := &fpState{ptrs: map[uintptr]int{}, slack: st.slack}
+			ks := newFpString(st.slack)
 			ks.walk(it.Key(), depth+1)
-			kvs = append(kvs, kv{k: ks.b.String()})
+			kvs = append(kvs, kv{k: ks.sb.String()})
 		}
 		sort.Slice(kvs, func(i, j int) bool { return kvs[i].k < kvs[j].k })
 		// second pass in sorted order so pointer ordinals are deterministic
 		vals := map[string]reflect.Value{}
 		it = v.MapRange()
 		for it.Next() {
-			ks := &fpState{ptrs: map[uintptr]int{}, slack: st.slack}
+			ks := newFpString(st.slack)
 			ks.walk(it.Key(), depth+1)
-			vals[ks.b.String()] = it.Value()
+			vals[ks.sb.String()] = it.Value()
 		}
 		st.b.WriteByte('{')
 		for _, e := range kvs {
@@ -173,9 +227,10 @@ func (st *fpState) walk(v reflect.Value, depth int) {
 			return
 		}
 		id, _ := st.ptr(v.Pointer())
-		fmt.Fprintf(&st.b, "fn@%d", id)
+		st.b.WriteString("fn@")
+		st.int(int64(id))
 	default:
-		fmt.Fprintf(&st.b, "<%s>", v.Kind())
+		st.b.WriteString("<" + v.Kind().String() + ">")
 	}
 }
 
